@@ -59,6 +59,42 @@ CHECKS = {
             "StreamDecoder::with_require_alignment stays at its default (false): with it the outcome legitimately depends on where the caller's chunk happens to be aligned",
         ],
     },
+    "C15": {
+        "crate": "checks",
+        "bin": "c15_pq_io",
+        "level": "exploration",
+        "max_skip_fraction": 0.10,
+        "rule": "one run = one generated Parquet file (unique row-id column + generated flat/nested columns, 1-7 row groups, small pages, tape-chosen writer properties) and one option set "
+                "(projection by leaves or roots, row-group subset/order, RowSelection, 0-3 row-id predicates with declared extra columns and NULL results, offset, limit, batch size, selection policy, "
+                "predicate-cache size, page index on/off); the sync reader is the reference; the scenario's front end is then executed under 2-4 simulator-chosen I/O schedules and compared row by row; "
+                "executions_of_real_code = front-end executions; a run is non-trivial when its reference succeeded; distinct = distinct (front end, file length, result rows, delivery modes, completion orders)",
+        "required_probes": ["probe.async.pending_seen", "probe.async.vectored_fetch", "probe.async.metadata_fetched", "probe.async.row_group_reader_drained_late", "probe.push.supply_superset",
+                            "probe.push.supply_partial", "probe.push.supply_duplicates", "probe.push.early_whole_file", "probe.push.rebuilt_at_boundary", "probe.push.reader_drained_late",
+                            "probe.with_predicates", "probe.with_row_selection", "probe.reference_has_rows"],
+        "components": {
+            "real": ["parquet::arrow::arrow_reader::ParquetRecordBatchReaderBuilder (reference)", "ParquetRecordBatchStreamBuilder / ParquetRecordBatchStream::{poll_next, next_row_group}",
+                     "the blanket AsyncFileReader for tokio AsyncRead + AsyncSeek", "ParquetPushDecoderBuilder / ParquetPushDecoder::{try_decode, try_next_reader, push_ranges, clear_all_ranges, into_builder}",
+                     "ParquetMetaDataPushDecoder, ParquetMetaDataReader::{load_and_finish, load_via_suffix_and_finish}", "RowGroupReaderBuilder, RemainingRowGroups, PushBuffers, InMemoryRowGroup, predicate cache",
+                     "ArrowWriter (produces the files)"],
+            "stub": ["SimAsyncFile (AsyncFileReader: per-fetch futures completed by the seeded scheduler, vectored or per-range, metadata supplied or fetched)",
+                     "SimAsyncSource (AsyncRead + AsyncSeek with Pending and short reads)", "manual executor (no tokio runtime, lost wake-ups detected)", "the range supplier of the push decoder"],
+            "not_run": ["ParquetObjectReader / object_store", "SpawnedReader (real threads)", "cancellation of next_row_group futures (caller behaviour, not I/O behaviour)", "virtual columns, encryption"],
+        },
+        "level_text": "seeded exploration of I/O schedules (Pending/ready patterns and completion orders of fetch futures; per-range vs vectored fetch; metadata supplied vs fetched; for the push decoder "
+                      "exact / shuffled / one-call-per-range / superset / whole-file / duplicate / extra / partial deliveries, early deliveries, eviction of staged ranges, deferred draining of row-group readers, "
+                      "into_builder+build at row-group boundaries) of three Parquet front ends against the sync reader on the same file and options; sampling, not proof",
+        "design_ref": "DESIGN.md section 4 (C15), section 11",
+        "level_note": "the reference is the sync reader on the same file and options (whether that equals post-filtering is C06, not decided here); ParquetObjectReader, SpawnedReader and cancellation are not exercised; "
+                      "'sufficient' is checked as: a request repeated unchanged more than (#predicates+2) times although answered in full each time, an empty request, or more request rounds than a bound "
+                      "proportional to row groups x predicates; trusted: in-tree simulator and executor, row extraction, ArrayData::validate_full",
+        "technique": "deterministic simulation: the AsyncFileReader / AsyncRead seams and the push decoder's range supplier are owned by a seeded scheduler (manual executor, no runtime); reference = sync reader; tape replay + shrinking",
+        "assumptions": TRUSTED + [
+            "the sync reader's rows for the same file and options are the truth C15 compares against",
+            "row-group lists contain no duplicates and a RowSelection covers exactly the rows of the selected row groups (legal inputs only)",
+            "each requested range is delivered inside one supplied buffer (the non-coalescing PushBuffers contract); a range is never delivered in pieces",
+            "ArrayData::validate_full is trusted as the validity oracle for returned batches",
+        ],
+    },
     "C18": {
         "crate": "checks",
         "bin": "c18_iofault",
